@@ -2,6 +2,7 @@
 //! canonical observations as Coq terms (one case per line) for the model to be compared with.
 mod c07;
 mod c13;
+mod c13r;
 mod c16;
 mod c17;
 mod c19;
@@ -64,6 +65,25 @@ fn main() {
                 .iter()
                 .filter_map(|l| c13::parse(l))
                 .map(|s| c13::to_case(&s))
+                .collect();
+            write_cases(&out.expect("--out"), &cases);
+        }
+        ("c13r", "gen") => {
+            let mut rng = Rng::new(seed);
+            let mut w = open_out(&out);
+            for _ in 0..count {
+                writeln!(w, "{}", c13r::show(&c13r::gen(&mut rng))).unwrap();
+            }
+        }
+        ("c13r", "sweep") => {
+            let mut w = open_out(&out);
+            c13r::sweep(|s| writeln!(w, "{}", c13r::show(&s)).unwrap());
+        }
+        ("c13r", "run") => {
+            let cases: Vec<Case> = read_lines(&input)
+                .iter()
+                .filter_map(|l| c13r::parse(l))
+                .map(|s| c13r::to_case(&s))
                 .collect();
             write_cases(&out.expect("--out"), &cases);
         }
